@@ -1744,7 +1744,12 @@ func init() {
 			})
 		}
 		if n < 3 {
-			r.Shortfall(c, "C15.18", fmt.Sprintf("C15.18: only %d fit tests found", n))
+			if c.FnOpt("structures.WritableFractalHeap.blockCapacity") == nil && c.FnOpt("structures.WritableFractalHeap.directBlockCapacity") == nil {
+				// no notion of capacity at all (the tree before 23563ab): nothing to compare, and C15.16 reports what is wrong
+				r.Undec("C15.18", "structures.WritableFractalHeap#fit-tests-against-the-block-capacity", "", "the heap has no capacity function")
+			} else {
+				r.Shortfall(c, "C15.18", fmt.Sprintf("C15.18: only %d fit tests found", n))
+			}
 		}
 	})
 }
